@@ -77,4 +77,4 @@ DELIVERABLE, per change, in {out}/A and {out}/B :
   the two directories named above.
 
 Report back in a few lines: for A and for B, the one-sentence idea, the files touched, and the verification you ran.
-Aim to be finished within about 45 minutes. If after honest effort you can produce only one sound change, deliver one and say so.""")
+Aim to be finished within about 35 minutes. If after honest effort you can produce only one sound change, deliver one and say so.""")
